@@ -74,7 +74,7 @@ Definition ex_cfg (ver : Z * Z) (enc mac blk aead etm aes chacha : bool) (bs tag
   {| c_ver := ver; c_tls13 := ver_lt (3, 3) ver; c_has_enc := enc; c_has_mac := mac; c_block := blk;
      c_aead := aead; c_etm := etm; c_bs := bs; c_aes := aes; c_chacha := chacha; c_tag := tag;
      c_nonce_len := nl; c_fixed_nonce := fn; c_fixed_iv := fiv; c_send_limit := 16384;
-     c_recv_limit := 16384; c_pad_cb := cb |}.
+     c_recv_limit := 16384; c_pad_cb := cb; c_plain_alert := false |}.
 
 Definition ex_stream := ex_cfg (3, 1) true true false false false false false 0 0 0 [] [] None.
 Definition ex_cbc := ex_cfg (3, 2) true true true false false false false 16 0 0 [] (repeat 7 16) None.
